@@ -89,6 +89,9 @@ def units(ctx, prop):
         us.append(("errors", prop))
     else:  # C11
         fam2 = cones.family_2d(ctx.thorough, ctx.seed)
+        if not ctx.thorough:
+            # the predicate and its oracle are cheap: the full 10-degree theta grid in quick as well (keeps the F13 witnesses)
+            fam2 = fam2 + [("theta", t) for t in cones.thetas(True) if ("theta", t) not in fam2]
         fam3 = cones.family_3d(ctx.thorough)
         for sc in scs:
             for spec in fam2:
